@@ -110,7 +110,10 @@ def check_panel(case, ctx):
     sk = (W - W.T) / 2.
     sy = (W + W.T) / 2.
     ctx.close('flow-part(skew)', sk, Rb, 1e-9, bucket=name + '.flow-part', scale=sc)
-    ctx.close('curvature-part(symmetric)', sy, Rg, 1e-9, bucket=name + '.gamma-part', scale=sc)
+    # the curvature part is judged on its own scale (the flow part only contributes its rounding): a small gamma next to a large or
+    # vanishing beta is still the stated -gamma*Integral(w_A*w_B)
+    sc_g = abs(gamma) * S0 + 1e-6 * abs(beta) * S0 * 2. * max(mf, 3) ** 2 / Lf or 1.
+    ctx.close('curvature-part(symmetric)', sy, Rg, 1e-9, bucket=name + '.gamma-part', scale=sc_g)
 
     # damping matrix
     with package(name + '.cA'):
@@ -199,10 +202,19 @@ def check_bay(case, ctx):
     with package(name + '.build'):
         spb, stiffs = build_bay(case)
         spb.flow = case['flow']
+        pre = case.get('prelude')
+        if pre:
+            # parametric flutter study on one bay object: a first evaluation with other, explicitly given coefficients; they are then
+            # re-set (to other values, to None = "no curvature term", or to None = "derive from Mach, density and speed")
+            spb.beta, spb.gamma, spb.aeromu = pre['beta'], pre['gamma'], pre['aeromu']
+            spb.calc_kA(silent=True)
+            spb.beta = spb.gamma = spb.aeromu = None
+            ctx.label('object:coefficients-reset-after-first-calc_kA')
         if case['mach_route']:
             spb.Mach, spb.rho_air, spb.V, spb.speed_sound = case['Mach'], case['rho'], case['V'], case['ainf']
         else:
-            spb.beta, spb.gamma, spb.aeromu = case['beta'], case['gamma'], case['aeromu']
+            spb.beta, spb.aeromu = case['beta'], case['aeromu']
+            spb.gamma = None if (case['gamma'] == 0. and case.get('gamma_none')) else case['gamma']
         K0 = dense(spb.calc_k0(silent=True))
     size = spb.get_size()
     ctx.nontrivial = len(stiffs) > 0
@@ -231,8 +243,14 @@ def check_bay(case, ctx):
 def _aero(draw, case):
     case['flow'] = draw(st.sampled_from(['x', 'y']))
     case['mach_route'] = draw(st.sampled_from([False, False, True]))
-    case['beta'] = round(draw(gen.fl(-1e4, 1e4)), 3)
-    case['gamma'] = round(draw(gen.fl(-1e3, 1e3)), 3) if draw(st.booleans()) else 0.
+    case['beta'] = draw(st.one_of(st.just(0.), st.builds(lambda x: round(x, 3), gen.fl(-1e4, 1e4)), st.builds(lambda x: round(x, 3), gen.fl(-1e4, 1e4))))
+    # any unit system: pressure numbers from 1e-14 to 1e3
+    case['gamma'] = draw(st.sampled_from([-1., 1.])) * draw(gen.logfl(1e-14, 1e3)) if draw(st.booleans()) else 0.
+    case['gamma_none'] = draw(st.booleans())
+    case['prelude'] = None
+    if draw(st.integers(0, 2)) == 0:
+        case['prelude'] = {'beta': round(draw(gen.fl(-1e4, 1e4)), 3), 'gamma': round(draw(gen.fl(-1e3, 1e3)), 3),
+                           'aeromu': round(draw(gen.fl(-50., 50.)), 3)}
     case['aeromu'] = round(draw(gen.fl(-50., 50.)), 3)
     case['Mach'] = draw(st.one_of(gen.fl(1.05, 5.), st.sampled_from([1., 2., 1.5])))
     case['rho'] = draw(gen.fl(0.1, 2.))
